@@ -300,6 +300,14 @@ var constToken = map[action]token.Token{
 	aAdd: token.ADD, aSub: token.SUB, aMul: token.MUL, aQuo: token.QUO, aRem: token.REM,
 	aAnd: token.AND, aOr: token.OR, aXor: token.XOR, aAndNot: token.AND_NOT, aShl: token.SHL, aShr: token.SHR,
 	aNeg: token.SUB, aPos: token.ADD, aBitNot: token.XOR, aNot: token.NOT,
+	aEqual: token.EQL, aNotEqual: token.NEQ, aLower: token.LSS, aLowerEqual: token.LEQ, aGreater: token.GTR, aGreaterEqual: token.GEQ,
+}
+
+// compareConst computes the result of the comparison of constants.
+func compareConst(n *node) {
+	if x, y := constValue(n.child[0].rval), constValue(n.child[1].rval); x != nil && y != nil {
+		n.rval = reflect.ValueOf(constant.Compare(x, constToken[n.action], y))
+	}
 }
 
 // constExpr type checks the operation of n on constant operands of a numeric type: the exact
@@ -308,7 +316,7 @@ func (check typecheck) constExpr(n *node) error {
 	c0, c1 := n.child[0], n.lastChild()
 	t, tok := c0.typ.TypeOf(), constToken[n.action]
 	x, y := constValue(c0.rval), constValue(c1.rval)
-	if x == nil || y == nil || isConstantValue(c0.rval.Type()) && (isShiftAction(n.action) || isConstantValue(c1.rval.Type())) {
+	if x == nil || y == nil || isComparisonAction(n.action) || isConstantValue(c0.rval.Type()) && (isShiftAction(n.action) || isConstantValue(c1.rval.Type())) {
 		return nil // Not a number, or an untyped constant operation, which is exact.
 	}
 	if isInt(t) {
